@@ -36,8 +36,9 @@ def thresholds(tier):
 
 
 def knobs(rng):
-  return {"depth": rng.choice([0, 1, 1, 2]), "max_children": rng.choice([1, 2]), "p_struct": rng.choice([0.2, 0.5]), "p_list": 0.3,
-          "p_ff": 0.25, "max_sigs": rng.choice([3, 4]), "expr_depth": rng.choice([2, 3])}
+  return {"depth": rng.choice([0, 1, 1, 2]), "max_children": rng.choice([1, 2]), "p_struct": rng.choice([0.2, 0.5]), "p_list": 0.4,
+          "p_ff": 0.25, "max_sigs": rng.choice([3, 4]), "expr_depth": rng.choice([2, 3]),
+          "p_nested_field": rng.choice([0, 0.3]), "p_list_field": rng.choice([0, 0.35])}
 
 
 # ---- known-finding predicates over the witness --------------------------------------------------------------------
